@@ -1,0 +1,7 @@
+//go:build verif
+
+package main
+
+import "go/token"
+
+func verifIsIdentifier(s string) bool { return token.IsIdentifier(s) }
